@@ -281,8 +281,14 @@ def _work(job):
     old = Run.inject_fault
     Run.inject_fault = lambda self, stub, f: inject(self, stub, f)
     try:
-        r = explorer.explore(scen, cfg, budget=budget, max_exec=cap, post=post,
-                             timer_choice=(prop == "C14"))
+        try:
+            r = explorer.explore(scen, cfg, budget=budget, max_exec=cap, post=post,
+                                 timer_choice=(prop == "C14"))
+        except explorer.UnsoundMerge:
+            # no merging for this case (see sched._work)
+            r = explorer.explore(scen, cfg, budget=budget, max_exec=cap, post=post,
+                                 timer_choice=(prop == "C14"), stateless=True)
+            r["stateless_fallback"] = True
     except Exception as e:  # noqa: BLE001
         import traceback
         return dict(error=repr(e)[:300] + traceback.format_exc()[-800:], name=name)
